@@ -230,6 +230,11 @@ class AncDriver(explore.Driver):
             for feat in ("deform", "area_um"):
                 for v in (0, 1):
                     out.append((["shadow", feat, v], 1))
+            if not self.with_temp:
+                # ... or provide one that was missing: the temperature
+                # feature makes recipes available that were not before
+                for v in (0, 1):
+                    out.append((["shadow", "temp", v], 1))
         if self.child:
             out.append((["refresh"], 0))
         return out
@@ -405,6 +410,10 @@ class AncDriver(explore.Driver):
                                 visc_model=model, **kw)
         if "temp" in d:
             return get_emodulus(medium=med, temperature=d["temp"],
+                                visc_model=model, **kw)
+        if "temp" in st.shadow:
+            # the temperature feature was provided as a temporary feature
+            return get_emodulus(medium=med, temperature=st.shadow["temp"],
                                 visc_model=model, **kw)
         return None
 
